@@ -253,6 +253,7 @@ func main() {
 	factsStoreConstructors()
 	factsPools()
 	factsStatusCallback()
+	factsTransport()
 
 	out.WriteString("\nend Pike.Facts\n")
 	if outPath == "" {
